@@ -392,6 +392,7 @@ F_C04_step(cfg, pre, post) ==
           LET r == post.recs[a]
           IN r.type \in {"service", "interrupted service"} /\ r.sid > 0 /\ r.n \in 1..NN(pre)
                 /\ IsLive(pre, r.id) /\ CuOf(pre, r.id).loc = r.n /\ CuOf(pre, r.id).srv > 0
+                /\ ~(\E b \in 1..(a-1) : post.recs[b].id = r.id)    \* (a later record of the same event belongs to a new visit)
              => r.sid = CuOf(pre, r.id).srv /\ r.ss = CuOf(pre, r.id).ss)
 
 \* utilisation (runs without pre-emption, one simulate_until_max_time call): the observer integrates, from the
